@@ -11,7 +11,7 @@ LEVEL = "fault_enumeration"
 RULE = ("history = 1-15 PooledClient calls (legal arguments; store/fetch/multi-key/incr/touch/version/quit) over the fake "
         "network, each with at most one fault drawn per event kind (any socket-level fault or reply tampering of C01), "
         "clock advances with gaps below / at / above pool_idle_timeout; max_pool_size in {1, 2, None}; pool_idle_timeout "
-        "in {0, 5}; ignore_exc on/off. A systematic part places every single fault of a dry run of each operation on the "
+        "in {0, 5}; ignore_exc on/off. Calls may themselves take time (the virtual clock advances by a latency at every recv), so idle time measured from the checkout instead of the release is visible. A systematic part places every single fault of a dry run of each operation on the "
         "second call of a three-call history (so a healthy pooled connection exists before and a call follows), and "
         "sweeps the idle gap over {0, timeout-1, timeout, timeout+1, 3*timeout}. Oracle: after every call no pooled "
         "connection is checked out; a socket on which a fault fired, or that was used by a call that raised or swallowed "
@@ -52,7 +52,9 @@ def check(case):
     def obs(run, i, call, out):
         net = run.env.net
         pool = run.client.client_pool
-        now = run.env.clock.now
+        now_end = run.env.clock.now
+        # idle time is judged at the checkout, i.e. at the start of the call (the call itself may take time)
+        now = (st_["last_release"] if st_["last_release"] is not None else now_end) + (call.get("advance") or 0) if st_["last_release"] is not None else now_end
         evs = net.log[st_["pos"]:]
         st_["pos"] = len(net.log)
         where = "call %d %r (outcome %r) of history %r; cfg %r" % (i, call["op"], c01._short(out), hist(), cfg)
@@ -107,7 +109,7 @@ def check(case):
             if len(opened) > 1:
                 raise Violation(["two-open-sockets"], "sockets %r open after %s" % ([s.id for s in opened], where))
             st_["live"] = opened[0].id if opened else None
-        st_["last_release"] = now
+        st_["last_release"] = now_end
     run = interpret(case, obs)
     run.client.close()
     left = [s.id for s in run.env.net.sockets if not s.closed]
@@ -137,6 +139,12 @@ def sweep_cases(tier, seed):
                             calls = [dict(c) for c in base["calls"]]
                             calls[1] = dict(calls[1], faults=[f])
                             yield dict(base, calls=calls)
+                # calls that take time themselves: idle time counts from the release, not from the checkout
+                if idle:
+                    for lat in (2, 4, 7):
+                        for gap in (0, 1, 4, 5, 6):
+                            yield {"kind": "pooled", "cfg": cfg, "latency": lat,
+                                   "calls": [{"op": OPS[0]}, {"op": OPS[2], "advance": gap}, {"op": OPS[4], "advance": gap}, {"op": OPS[0], "advance": gap}]}
                 # idle-gap sweep
                 for gap in (0, 4, 5, 6, 15):
                     for r in (OPS[0], OPS[2], OPS[10]):
@@ -149,8 +157,9 @@ def history_strategy(tier):
                      st.sampled_from(OPS), st.one_of(st.none(), st.none(), fault), st.sampled_from([0, 0, 1, 4, 5, 6, 20]))
     cfg = st.fixed_dictionaries({"max_pool_size": st.sampled_from([1, 2, None]), "pool_idle_timeout": st.sampled_from([0, 5]),
                                  "ignore_exc": st.booleans(), "default_noreply": st.booleans()})
-    return st.builds(lambda c, calls, p, co: {"kind": "pooled", "cfg": c, "calls": calls, "pieces": p, "coalesce": co},
-                     cfg, st.lists(call, min_size=2, max_size=15), st.one_of(st.none(), st.lists(st.sampled_from([1, 3, 4096]), min_size=1, max_size=3)), st.booleans())
+    return st.builds(lambda c, calls, p, co, lat: {"kind": "pooled", "cfg": c, "calls": calls, "pieces": p, "coalesce": co, "latency": lat},
+                     cfg, st.lists(call, min_size=2, max_size=15), st.one_of(st.none(), st.lists(st.sampled_from([1, 3, 4096]), min_size=1, max_size=3)), st.booleans(),
+                     st.sampled_from([0, 0, 1, 3, 7]))
 
 
 PARTS = [
